@@ -1969,10 +1969,15 @@ class EntityInst(Instance):
 
         port_map: list[Tuple[str, str]] = []
 
-        for port_name in self._entity.ports():
-            port_map.append(
-                (port_name, self._scope.format_target(self._ports[port_name]))
-            )
+        for port_name, port_decl in self._entity.ports().items():
+            if port_decl.direction().is_input():
+                # the actual of an input port is an expression, views and slices
+                # need a cast to the type of the formal
+                local = self._scope.format_value(self._ports[port_name])
+            else:
+                local = self._scope.format_target(self._ports[port_name])
+
+            port_map.append((port_name, local))
 
         line_end = [","] * (len(port_map) - 1) + [""]
 
